@@ -47,12 +47,42 @@ ASSUMPTIONS = ["sensor coordinates in general position inside one Delaunay class
 OUTSIDE = ["boundaries other than rectangles (the chord obligation is stated for the rectangle's corners)", "more than 5 retained sensors; degenerate (cocircular / collinear) layouts",
            "floating-point round-off in Qhull / GEOS at coordinate magnitudes of 1e4 array extents", "spatial_weights' dispatch, plot_voronoi"]
 
+BOUNDS = {"quick": {"layouts": "quad (4 sensors in convex position), right (right-triangular hull with legs along the axes + 1 interior sensor)", "families": "one sensor free along x inside its Delaunay class (each sensor in turn); the whole layout under arbitrary translation and positive scaling; one extra sensor outside the boundary at list positions 0 / last",
+                    "O4": "rectangle within 1e3 layout units (x the scaling), free sensor within 1e2; 15 s per query", "paths": 24},
+          "thorough": {"layouts": "quad, right, centre (3 + 1 interior), five (convex pentagon)", "families": "one sensor free in x, in y and in (x, y); similarity with three rotations; extra outside sensor at every list position",
+                       "O4": "as quick, 120 s per query", "paths": 400}}
+
 # reference layouts: one Delaunay class each
 LAYOUTS = {
-    "quad": [(0.0, 0.0), (4.0, -1.0), (6.0, 3.0), (1.0, 4.0)],
-    "centre": [(0.0, 0.0), (6.0, 0.0), (3.0, 5.0), (3.0, 2.0)],
+    # hull edges of rational length (3-4-5 triangles) keep the constant norms rational
+    "quad": [(0.0, 0.0), (4.0, -3.0), (8.0, 0.0), (4.0, 3.0)],
+    "centre": [(0.0, 0.0), (6.0, 0.0), (3.0, 4.0), (3.0, 1.5)],
+    # hull = right triangle with its legs along the axes (an L-shaped deployment): the centre of the bounding box is ON the hull
+    "right": [(0.0, 0.0), (8.0, 0.0), (0.0, 6.0), (2.0, 1.5)],
     "five": [(0.0, 0.0), (5.0, -1.0), (7.0, 3.0), (3.0, 6.0), (-1.0, 3.0)],
 }
+
+
+def instances(tier):
+    out = []
+    T = 230 if tier == "quick" else 900
+    layouts = ["quad", "right"] if tier == "quick" else ["quad", "right", "centre", "five"]
+    for lay in layouts:
+        n = len(LAYOUTS[lay])
+        out.append({"name": f"voronoi_{lay}_similarity", "func": "run_voronoi", "kwargs": {"layout": lay, "free_site": 0, "similarity": True}, "timeout": T})
+        out.append({"name": f"voronoi_{lay}_similarity_dropped_first", "func": "run_voronoi", "kwargs": {"layout": lay, "free_site": 0, "similarity": True, "drop_at": 0}, "timeout": T})
+        if tier != "quick":
+            for rot in ("r345", "r-5-12-13"):
+                out.append({"name": f"voronoi_{lay}_similarity_{rot}", "func": "run_voronoi", "kwargs": {"layout": lay, "free_site": 0, "similarity": True, "rotation": rot}, "timeout": T})
+            for d in range(1, n + 1):
+                out.append({"name": f"voronoi_{lay}_similarity_dropped_{d}", "func": "run_voronoi", "kwargs": {"layout": lay, "free_site": 0, "similarity": True, "drop_at": d}, "timeout": T})
+        for i in range(n):
+            out.append({"name": f"voronoi_{lay}_sensor{i}_free_x", "func": "run_voronoi", "kwargs": {"layout": lay, "free_site": i, "free_dims": 1}, "timeout": T})
+            if tier != "quick":
+                out.append({"name": f"voronoi_{lay}_sensor{i}_free_y", "func": "run_voronoi", "kwargs": {"layout": lay, "free_site": i, "free_dims": 1, "free_axis": "y"}, "timeout": T})
+                out.append({"name": f"voronoi_{lay}_sensor{i}_free_xy", "func": "run_voronoi", "kwargs": {"layout": lay, "free_site": i, "free_dims": 2}, "timeout": T})
+        out.append({"name": f"voronoi_{lay}_sensor0_free_x_dropped_last", "func": "run_voronoi", "kwargs": {"layout": lay, "free_site": 0, "free_dims": 1, "drop_at": n}, "timeout": T})
+    return out
 
 
 def topology(ref):
@@ -184,7 +214,7 @@ def make_voronoi_stub(ctx, topo, ref, record):
 ROTATIONS = {"id": (1.0, 0.0), "r345": (0.6, 0.8), "r-5-12-13": (-5.0 / 13.0, 12.0 / 13.0)}
 
 
-def run_voronoi(rep, tier, layout, drop_at=None, L=None, scale="free", free_site=None, rotation="id", similarity=False, free_dims=2):
+def run_voronoi(rep, tier, layout, drop_at=None, L=None, scale="free", free_site=None, rotation="id", similarity=False, free_dims=2, free_axis="x"):
     Ld = L()
     HS = Ld["hvsr_spatial"]
     ref = LAYOUTS[layout]
@@ -215,7 +245,12 @@ def run_voronoi(rep, tier, layout, drop_at=None, L=None, scale="free", free_site
                     continue
                 x0, y0 = ref[k]
                 if k == free_site and not similarity:
-                    x0, y0 = Sym.var("fx", ctx), (Sym.var("fy", ctx) if free_dims == 2 else y0)
+                    if free_dims == 2:
+                        x0, y0 = Sym.var("fx", ctx), Sym.var("fy", ctx)
+                    elif free_axis == "x":
+                        x0 = Sym.var("fx", ctx)
+                    else:
+                        y0 = Sym.var("fx", ctx)
                 coords[i, 0] = Sym(Sym.lift((x0 * c - y0 * s_) * sc + tx))
                 coords[i, 1] = Sym(Sym.lift((x0 * s_ + y0 * c) * sc + ty))
                 k += 1
@@ -237,10 +272,45 @@ def run_voronoi(rep, tier, layout, drop_at=None, L=None, scale="free", free_site
         FakePolygon.made = []
         sp = HS.HvsrSpatial.__new__(HS.HvsrSpatial)
         sp.coordinates = coords
-        regions, indices = sp._bounded_voronoi(box)
+        real_arctan2 = type(HS.np).arctan2
+
+        def arctan2(y, x, *a, **k):
+            # branch decisions up to here fix the radius; the later ones only the starting vertex of the angular sort
+            ctx.notes.setdefault("pc_at_sort", len(ctx.pc))
+            return real_arctan2(HS.np, y, x, *a, **k)
+        HS.np.arctan2 = arctan2
+        try:
+            regions, indices = sp._bounded_voronoi(box)
+        finally:
+            del HS.np.arctan2
         return coords, box, keep, record["vor"], regions, indices
 
-    for ctx, (coords, box, keep, vor, regions, indices) in rep.explore(run, max_paths=200 if tier == "quick" else 2000, timeout_ms=8000):
+    cache = {}
+    o4_timeout = 15000 if tier == "quick" else 120000
+
+    def decide(ctx, label, negated, W, key, timeout_ms, extra=()):
+        """One obligation, decided under the class assumptions and the branch decisions that precede the angular sort (those of
+        the sort only select the starting vertex, which no obligation depends on); identical queries of other paths are reused."""
+        rep.obligations += 1
+        npc = ctx.notes.get("pc_at_sort", len(ctx.pc))
+        qkey = (z3.And(*ctx.pc[:npc]).sexpr() if npc else "", negated.sexpr())
+        if qkey not in cache:
+            cache[qkey] = ctx.query_assumptions_only(negated, *extra, timeout_ms=timeout_ms, pc_prefix=npc)
+            fresh = True
+        else:
+            fresh = False
+        r, mdl = cache[qkey]
+        if r == z3.unsat:
+            rep.discharged += 1
+        elif r == z3.sat:
+            if fresh:
+                rep.candidate(W(mdl), label, key=key)
+        elif fresh or label + ": solver returned unknown" not in rep.inconclusive:
+            rep.inconclusive.append(label + ": solver returned unknown")
+    sc_term = z3.Real("sc") if similarity else z3.RealVal(1)
+    tx_term = z3.Real("tx") if similarity else z3.RealVal(0)
+    ty_term = z3.Real("ty") if similarity else z3.RealVal(0)
+    for ctx, (coords, box, keep, vor, regions, indices) in rep.explore(run, max_paths=24 if tier == "quick" else 400, timeout_ms=8000):
         rep.reachable(ctx)
         P = vor.points
 
@@ -271,35 +341,34 @@ def run_voronoi(rep, tier, layout, drop_at=None, L=None, scale="free", free_site
                 rep.candidate(W(ctx.model()[1]), f"region {i}: vertices {got_finite} + {sum(is_far)} far points, cell has {sorted(cell_vertices)} + {len(inf_ridges)} unbounded edges", key="voronoi-region-structure")
                 continue
             # O1
-            bad = [(_d2(w, P[i]) > _d2(w, P[k])).e for w in poly for k in range(n) if k != i]
-            rep.prove(ctx, f"region {i}: every vertex is in the closed cell of sensor {i} (O1)", bad, witness=W, key="voronoi-vertex-outside-cell", nlsat_first=True, timeout_ms=20000)
+            for j, w in enumerate(poly):
+                bad = z3.Or(*[(_d2(w, P[i]) > _d2(w, P[k])).e for k in range(n) if k != i])
+                decide(ctx, f"region {i}: {'far point' if is_far[j] else 'vertex'} is in the closed cell of sensor {i} (O1)", bad, W, "voronoi-vertex-outside-cell", 20000)
             # O3 (far points on the unbounded edges)
             for j, w in enumerate(poly):
                 if is_far[j]:
                     bad = z3.And(*[(_d2(w, P[i]) != _d2(w, P[k])).e for k in inf_ridges])
-                    rep.prove(ctx, f"region {i}: far point {j} lies on an unbounded edge of the cell (O3)", bad, witness=W, key="voronoi-far-point-off-edge", nlsat_first=True, timeout_ms=20000)
+                    decide(ctx, f"region {i}: far point lies on an unbounded edge of the cell (O3)", bad, W, "voronoi-far-point-off-edge", 20000)
             # O2
             crosses = [_orient(poly[j], poly[(j + 1) % m], poly[(j + 2) % m]) for j in range(m)]
             if any(is_far):
                 for j, c in enumerate(crosses):
-                    rep.prove(ctx, f"region {i}: vertices {j}, {j + 1}, {j + 2} turn counter-clockwise (O2)", (c < 0).e, witness=W, key="voronoi-vertex-order", timeout_ms=20000)
+                    decide(ctx, f"region {i}: consecutive vertices turn counter-clockwise (O2)", (c < 0).e, W, "voronoi-vertex-order", 20000)
             else:
-                bad = [z3.And(z3.Or(*[(c < 0).e for c in crosses]), z3.Or(*[(c > 0).e for c in crosses]))]
-                rep.prove(ctx, f"region {i}: vertices in convex cyclic order (O2)", bad, witness=W, key="voronoi-vertex-order", timeout_ms=20000)
+                bad = z3.And(z3.Or(*[(c < 0).e for c in crosses]), z3.Or(*[(c > 0).e for c in crosses]))
+                decide(ctx, f"region {i}: vertices in convex cyclic order (O2)", bad, W, "voronoi-vertex-order", 20000)
             # O4
             for j in range(m):
                 if is_far[j] and is_far[(j + 1) % m]:
                     a, b = poly[j], poly[(j + 1) % m]
+                    # BOUND of O4: the boundary rectangle within 1e3 layout units (x the uniform scaling), the free sensor within 1e2
+                    u = sc_term * 1000
+                    bounds = [box.xl.e >= -u + tx_term, box.xh.e <= u + tx_term, box.yl.e >= -u + ty_term, box.yh.e <= u + ty_term]
+                    if free_site is not None and not similarity:
+                        bounds += [z3.Real("fx") >= -100, z3.Real("fx") <= 100] + ([z3.Real("fy") >= -100, z3.Real("fy") <= 100] if free_dims == 2 else [])
                     for ci, c in enumerate(box.corners):
-                        label = f"region {i}: the chord between the far points leaves corner {ci} of the boundary region on its inner side (O4)"
-                        rep.obligations += 1
-                        r, mdl = ctx.query_assumptions_only((_orient(a, b, c) < 0).e, *ctx.notes.get("sqrt_defs", []), timeout_ms=30000)
-                        if r == z3.unsat:
-                            rep.discharged += 1
-                        elif r == z3.sat:
-                            rep.candidate(W(mdl), label, key="voronoi-chord-cuts-boundary")
-                        else:
-                            rep.inconclusive.append(label + ": solver returned unknown")
+                        decide(ctx, f"region {i}: the chord between the far points leaves corner {ci} of the boundary region on its inner side (O4)",
+                               (_orient(a, b, c) < 0).e, W, "voronoi-chord-cuts-boundary", o4_timeout, extra=bounds + list(ctx.notes.get("sqrt_defs", [])))
         rep.sample({"layout": layout, "retained": keep, "regions": [len(r) for r in regions]})
 
 
